@@ -31,9 +31,10 @@ def braid_suite(ctx, vh):
     out += ctx.run_engine(vh, "braid", sub, opts={"twin": 1, "index": 1, "stretch": 14}, tag="braid-stretch")
     # ladder family: one convergence point per rung in a single braid (> 768: ConvergenceMap spill,
     # > 256 braided commands: BraidResult spill); decided on C02's own predicate and twin equality
-    ladders = [{"rungs": r, "side": s} for r in (3, 90, 300, 900) for s in (1, 4)]
+    ladders = [{"rungs": r, "side": s, "side_mode": m} for r in (3, 90, 300, 513) for s in (1, 2, 4) for m in (0, 1, 2)]
+    ladders += [{"rungs": 900, "side": 2, "side_mode": m} for m in (0, 1, 2)]
     if ctx.thorough:
-        ladders += [{"rungs": r, "side": s} for r in (1500, 2500) for s in (2, 40)]
+        ladders += [{"rungs": r, "side": s, "side_mode": m} for r in (769, 1025, 1500, 2500) for s in (2, 3, 40) for m in (0, 1, 2)]
     out += ctx.run_engine(vh, "braid", ladders, tag="ladder", timeout=1800)
     ctx.cov["ladder_cases"] = ladders
     if ctx.thorough:
